@@ -378,3 +378,8 @@ CHECKS["C19"]["runs"][0]["params_quick"] = {"TABLE": 19}
 CHECKS["C18"]["runs"] = CHECKS["C18"]["runs"] + [
     {"name": "run.mux.initfail", "files": [G + "c18_initfail.go", G + "c06_reload.go"] + MUX, "fn": "VerifH_C18_initfail", "workers": 16, "params": {"DISK": 1},
      "params_quick": {"K": 9}, "params_thorough": {"K": 12}, "reach": ["write-failed", "end"]}]
+
+WSTEP = {"name": "step.window", "files": [G + "c04_step.go"] + MUX, "fn": "VerifH_C04_step", "workers": 16, "params_quick": {"MAXMSN": 99999}, "params_thorough": {"MAXMSN": 1073741824},
+         "reach": ["rotated", "evicted", "end"], "budget_quick": 900, "budget_thorough": 7200, "qtimeout": 60000}
+for pid in ("C03", "C04", "C05", "C18"):
+    CHECKS[pid]["runs"] = CHECKS[pid]["runs"] + [WSTEP]
